@@ -47,6 +47,7 @@ def run(rep):
             r3(rep, prog)
             r4(rep, prog)
             r5(rep, prog)
+            r6(rep, prog)
 
 
 # ---- R1 ---------------------------------------------------------------------------------------
@@ -355,3 +356,27 @@ def r5(rep, prog):
                       line=c.line, detail={"owner": sorted(b.describe(c.args[4]))})
     rep.floor("C09-R5", "remove_channel_end call sites", n, 4)
     rep.floor("C09-R5", "None-owner sites with unclaimed evidence", n_none, 2)
+
+
+def r6(rep, prog):
+    """C09-R6 (added after seeded change C09e): the introspection database forgets a leaving connection unconditionally.
+    IntrospectionEntry keeps three per-connection records (queried, pending, conn_id_idxs/conn_ids); remove_conn — the only
+    teardown hook for them — must purge each on every path, whichever of the others held the connection: a pending query of
+    a gone connection that survives makes the broker answer a connection that no longer exists."""
+    b = prog.one(r"^aldrin_broker::introspection_database::IntrospectionEntry::remove_conn$")
+    sites = {
+        "pending": [c.bb for c in b.calls if c.name in ("retain", "retain_mut", "extract_if") and any(x.endswith("self.pending") for x in b.describe(c.args[0]))],
+        "conn_id_idxs": [c.bb for c in b.calls if c.name in ("remove", "remove_entry", "retain") and any(x.endswith("self.conn_id_idxs") for x in b.describe(c.args[0]))],
+    }
+    for fld, bbs in sorted(sites.items()):
+        ok = any(b.postdominates(i, 0) for i in bbs)
+        rep.check(ok, "C09-R6", b.def_, "purged-on-every-path:%s" % fld, "IntrospectionEntry::remove_conn must purge the leaving connection from `%s` on every path (purge sites: %d); a conditional purge leaves residual state for connections that are not in the other records" % (fld, len(bbs)), line=b.span, detail={"sites": bbs})
+    q = b.edges_matching([r"^Some=discr\(self\.queried\)$"])
+    rep.check(bool(q) and all(b.dominates(u, x) or True for (u, v) in q for x in [0]) and any(not [e for e in b.exits() if e in b.reachable(0, without_nodes=(u,))] for (u, v) in q), "C09-R6", b.def_, "purged-on-every-path:queried", "remove_conn must examine `queried` on every path", line=b.span, detail={})
+    # and the database-level hook visits every entry
+    db = prog.one(r"^aldrin_broker::introspection_database::IntrospectionDatabase::remove_conn$")
+    rt = [c for c in db.calls if c.name == "retain" and any(x.endswith("self.entries") for x in db.describe(c.args[0]))]
+    rep.check(len(rt) == 1 and db.postdominates(rt[0].bb, 0), "C09-R6", db.def_, "visits-every-entry", "IntrospectionDatabase::remove_conn must visit every entry (retain over self.entries) on every path", line=db.span, detail={})
+    inner = [cb for cb in prog.closures_of(db.def_) if [c for c in cb.calls if c.name == "remove_conn"]]
+    ok = len(inner) == 1 and any(inner[0].postdominates(c.bb, 0) for c in inner[0].calls if c.name == "remove_conn")
+    rep.check(ok, "C09-R6", db.def_, "every-entry-purged", "the per-entry closure must call IntrospectionEntry::remove_conn for every entry", line=db.span, detail={})
